@@ -1,27 +1,138 @@
-(* C04 - property theorems only (proofs are in Bitmap/BitmapTextProofs.v and Base/). *)
+(* C04 - property theorems only (proofs: Bitmap/BitmapTextProofs.v, Base/{Bytes,Strto,Snprintf}.v).
+
+   Model: Bitmap/BitmapText.v.  A bitmap is (ulongs, infinite flag); [abs] is its
+   finite/cofinite set.  Printers = lists of pieces fed to the cursor-triple
+   idiom; parsers = functions on checked strings ([Oob] = a read outside the
+   block, [PAssert] = a failed assert()).
+
+   What is proved for ALL inputs: the snprintf contract of the three printers
+   (any bitmap, any buffer), asprintf = snprintf, "sscanf returns 0 or -1 and
+   never reads outside" for every NUL-terminated string (list, taskset; hwloc
+   under the hypothesis excluding the two refuted classes, and without
+   hypothesis for the code after patches/fix-C04-sscanf-empty.diff).
+   What is only proved on a bounded domain (suffix _partial): the three round
+   trips and parse-then-print-then-parse stability. *)
 From Coq Require Import String Ascii.
 From Coq Require Import NArith ZArith List Bool.
 From HV Require Import Base.BSet Base.Bytes Base.Strto Base.Snprintf Bitmap.BitmapText Bitmap.BitmapTextProofs.
 Import ListNotations.
 Local Open Scope N_scope.
 
-(* ---- snprintf contract, for every bitmap (any words, any flag) and every caller buffer ---- *)
+(* ================= snprintf contract =================
+   [contract text init r]: the call on the caller's buffer [init] (buflen = length init,
+   [] = NULL/0) performs no store outside it, returns length text, and leaves
+   firstn (buflen-1) text ++ [0] ++ the caller's bytes (so: NUL-terminated when buflen > 0,
+   truncated text is a prefix of the full text, nothing stored for NULL/0). *)
 Theorem print_contract_hwloc : forall b init, contract (text_hwloc b) init (print_hwloc b init).
 Proof. exact print_contract_hwloc_l. Qed.
 Print Assumptions print_contract_hwloc.
+
 Theorem print_contract_taskset : forall b init, contract (text_taskset b) init (print_taskset b init).
 Proof. exact print_contract_taskset_l. Qed.
 Print Assumptions print_contract_taskset.
 
+(* the list printer loops over next/next_unset with fuel: it never runs out *)
+Theorem print_contract_list : forall b init,
+  exists text, text_list (abs b) = Some text /\ contract text init (print_list b init).
+Proof. exact print_contract_list_l. Qed.
+Print Assumptions print_contract_list.
+
+(* asprintf (sizing call with NULL/0, then a call on a fresh block of len+1 bytes
+   of arbitrary content) returns the same length and the whole text; holds for
+   any piece list, hence for the three formats *)
 Theorem asprintf_eq_snprintf : forall ps junk, (forall n, length (junk n) = n) ->
   snprintf_pieces ps [] = Some (length (concat ps), []) /\
   asprintf_pieces ps junk = Some (length (concat ps), concat ps ++ [0]).
 Proof. exact asprintf_pieces_eq. Qed.
 Print Assumptions asprintf_eq_snprintf.
 
+Example contract_non_vacuous :
+  print_hwloc (BM [5; 1] false) [7; 7; 7; 7; 7; 7] = Some (22%nat, [48; 120; 48; 48; 48; 0]).
+Proof. vm_compute. reflexivity. Qed.
+
+(* ================= parsing arbitrary NUL-terminated strings ================= *)
+Theorem parse_total_list : forall s, nul_terminated s -> exists r, parse_list s = Ok r.
+Proof. intros s [n Hs]. exact (parse_list_total s n Hs). Qed.
+Print Assumptions parse_total_list.
+
+Theorem parse_total_taskset : forall dirty s, nul_terminated s ->
+  exists r, parse_taskset dirty s = Ok r /\ r <> PAssert.
+Proof. intros dirty s [n Hs]. exact (parse_taskset_total dirty s n Hs). Qed.
+Print Assumptions parse_total_taskset.
+
+(* --- hwloc format, code as it is (variant false): the full statement is false --- *)
+Example model_follows_current_code : hwloc_sscanf_fixed = false.
+Proof. reflexivity. Qed.
+
+(* "" : strchr(current + 1, ',') starts one byte past the terminator *)
 Theorem sscanf_empty_refuted :
   exists s, nul_terminated s /\ forall dirty, parse_hwloc_gen false dirty s = Oob.
 Proof.
   exists [0]. split; [exists 0; split; [reflexivity|intros k Hk; now destruct k]|exact sscanf_empty_oob].
 Qed.
 Print Assumptions sscanf_empty_refuted.
+
+(* ",1" : the comma at index 0 is not counted, assert(count > 0) fails *)
+Theorem sscanf_leading_comma_refuted :
+  exists s, nul_terminated s /\ forall dirty, parse_hwloc_gen false dirty s = Ok PAssert.
+Proof.
+  exists (cstr ",1"). split; [|exact sscanf_leading_comma_assert].
+  exists 2. split; [reflexivity|]. intros k Hk.
+  assert (k = 0 \/ k = 1) as [-> | ->] by (destruct k as [|[p|p|]]; try destruct p; auto; discriminate).
+  - exists 44. split; [reflexivity|discriminate].
+  - exists 49. split; [reflexivity|discriminate].
+Qed.
+Print Assumptions sscanf_leading_comma_refuted.
+
+(* every other string (not empty, not starting with a comma): 0 or -1, no read outside *)
+Theorem parse_total_hwloc_partial : forall dirty s, nul_terminated s -> hwloc_sscanf_safe s ->
+  exists r, parse_hwloc_gen false dirty s = Ok r /\ r <> PAssert.
+Proof. intros dirty s [n Hs] Hsafe. apply (parse_hwloc_gen_total false dirty s n Hs). now intros _. Qed.
+Print Assumptions parse_total_hwloc_partial.
+
+Example hwloc_sscanf_safe_non_vacuous : hwloc_sscanf_safe (cstr "0xf...f,0x00000001").
+Proof. exists 48. repeat split; discriminate. Qed.
+
+(* --- after patches/fix-C04-sscanf-empty.diff (variant true): full statement --- *)
+Theorem parse_total_hwloc_fixed : forall dirty s, nul_terminated s ->
+  exists r, parse_hwloc_gen true dirty s = Ok r /\ r <> PAssert.
+Proof. intros dirty s [n Hs]. apply (parse_hwloc_gen_total true dirty s n Hs). discriminate. Qed.
+Print Assumptions parse_total_hwloc_fixed.
+
+Example nul_terminated_non_vacuous : nul_terminated (cstr "0,2,64-65,100-").
+Proof. exists 14. apply (cstring_app (bytes_of_string "0,2,64-65,100-") []). repeat constructor; discriminate. Qed.
+
+(* ================= round trip and stability: bounded domain only =================
+   MISSING for the full statements: the induction over the printed groups /
+   ranges / nibbles relating the parser loops to the printer loops (string-level
+   invariants plus N.shiftr/land word arithmetic).  The statements below are
+   finite sweeps (vm_compute), the bound is in each statement; beyond it the
+   round trip is only tested (checks/c04.py: on the C code itself and on the
+   model, >= 5k bitmaps per run, both always agreeing). *)
+Theorem roundtrip_partial : forall b,
+  Forall (fun w => In w WORD_POOL) (bm_words b) -> (length (bm_words b) <= 3)%nat ->
+  rt_hwloc_ok b = true /\ rt_taskset_ok b = true /\ rt_list_ok (abs b) = true.
+Proof. exact roundtrip_bounded. Qed.
+Print Assumptions roundtrip_partial.
+
+Example roundtrip_domain_non_vacuous :
+  let b := BM [18446744069414584321; FULL; 1] true in
+  Forall (fun w => In w WORD_POOL) (bm_words b) /\ rt_hwloc_ok b = true.
+Proof. split; [repeat constructor; simpl; tauto|vm_compute; reflexivity]. Qed.
+
+(* rt_X_ok unfolds to: parse (print b) = Ok (PSet b') with abs b' = abs b (bs_eqb_spec) *)
+Theorem rt_hwloc_ok_meaning : forall b, rt_hwloc_ok b = true ->
+  exists b', parse_hwloc DIRTY (text_hwloc b ++ [0]) = Ok (PSet b') /\ abs b' = abs b.
+Proof.
+  intros b H. unfold rt_hwloc_ok in H.
+  destruct (parse_hwloc DIRTY (text_hwloc b ++ [0])) as [[b'| |]|]; try discriminate.
+  apply andb_true_iff in H. destruct H as [H _]. apply bs_eqb_spec in H. eauto.
+Qed.
+Print Assumptions rt_hwloc_ok_meaning.
+
+Theorem parse_stable_partial : forall p,
+  Forall (fun c => In c CHAR_POOL) p -> (length p <= 5)%nat ->
+  stable_hwloc_ok (p ++ [0]) = true /\ stable_taskset_ok (p ++ [0]) = true /\
+  (safe_list p = true -> stable_list_ok (p ++ [0]) = true).
+Proof. exact stable_bounded. Qed.
+Print Assumptions parse_stable_partial.
